@@ -63,6 +63,10 @@ func genSchedSpec(p *schedParams, c *Corpus, run int, cold bool) *RunSpec {
 			spec.GCAt = append(spec.GCAt, rg.Intn(span))
 		}
 	}
+	if rs := root.Split("stall"); !cold && rs.Chance(1, 10) {
+		// one worker's destination stops accepting after a few sink calls
+		spec.Stall = &StallPlan{Worker: rs.Intn(n), After: pick(rs, []int{0, 0, 1, 2, 3, 5, 8, 20, 50})}
+	}
 	// documents
 	var docs [][]byte
 	herd := rd.Chance(1, 2)
@@ -198,6 +202,11 @@ func genSchedSpec(p *schedParams, c *Corpus, run int, cold bool) *RunSpec {
 	spec.Policy = pol.name
 	spec.PolicyArg = pick(rs, pol.args)
 	spec.SchedSeed = rs.Next()
+	if rsw := root.Split("syncsw"); deepBuild && rsw.Chance(1, 4) {
+		// deep build: a quarter of the runs switch workers at the scheduling points around
+		// synchronisation calls (and Once sites) only
+		spec.Policy, spec.PolicyArg = "syncsw", pick(rsw, []int{2, 4, 12, 40})
+	}
 	return spec
 }
 
